@@ -17,7 +17,23 @@ U64 = np.uint64
 
 
 def oracle(ctx):
+    import syndiffix.anonymizer as A
+    from syndiffix.common import AnonymizationParams, FlatteningInterval
+    Rn = random.Random(ctx.seed * 19 + 7)
+
     def f(case):
+        if case["op"] == "cntm" and len(case["contribs"]) == 1 and case["impl"] not in ("none",) and not case["impl"].startswith("ERR") and Rn.random() < 0.5:
+            # the noise is keyed by the bucket and the set of contributing entities and scaled by their contributions: the same bucket over the same
+            # entities gets the same noise whether or not rows without an id are present, so such rows move the released count by 0..their number
+            (cs, un), = case["contribs"]; cs = dict(cs)
+            un2 = un if un else Rn.choice([1, 5, 40, 300])
+            ap = AnonymizationParams(salt=case["salt"], outlier_count=FlatteningInterval(case["ol"], case["ou"]), top_count=FlatteningInterval(case["tl"], case["tu"]),
+                                     layer_noise_sd=case["sd"])
+            r0, r1 = AS.py_cntm(A, ap, case["bucket_seed"], [(cs, 0)]), AS.py_cntm(A, ap, case["bucket_seed"], [(cs, un2)])
+            if r0 not in ("none",) and not r0.startswith("ERR") and not r1.startswith("ERR") and r1 != "none":
+                if not (-1 <= int(r1) - int(r0) <= un2 + 1):
+                    ctx.oracle_fail(f"{un2} rows without an id moved the released count from {r0} to {r1} (noise sd {case['sd']}): the noise of a bucket depends on "
+                                    f"more than its identity, its entities and their contribution scale", dict(case, idless=un2, without=r0, with_=r1), "noise-idless")
         if case["op"] == "rowlimit":
             L = case["rows"] // case["fraction"]
             if abs(case["impl"] - L) > L // 20:
